@@ -20,7 +20,7 @@ const (
 
 func init() {
 	register("C25", "other", "T2 Dominates (loop-aware phase order), T20 WrapperDelegation / override completeness, T8 DecisionTable, T4 GuardedBy",
-		"Decides the write ordering that crash consistency depends on. Pool: in SyncedPool.flush the complete dirty-mark loop over all pooled databases dominates every durable mutation (dropping a queued database, flushing a database), every flush dominates the clean-mark loop, all three loops range over the same map, and marks use the configured key and the given ID. Dirty-flag producer: every mutator of the flagged store (Put, Delete, batch Write) is overridden and delegates only after modified() returned nil; modified() writes the dirty mark before returning nil on the clean edge; Flush writes the clean mark and only then clears the in-memory flag; a database drop must be preceded by invalidating the other databases' clean state. Startup check: a dirty prefix, differing marks, or an unmarked database next to a known flush ID each lead only to error returns. The enumeration of crash points itself is not performed.",
+		"Decides the write ordering that crash consistency depends on. Pool: in SyncedPool.flush the complete dirty-mark loop over all pooled databases dominates every durable mutation (dropping a queued database, flushing a database), every flush dominates the clean-mark loop, all three loops range over the same map, marks use the configured key and the given ID, and every mark is put into the underlying database itself (the value the wrapper's InitUnderlyingDb() yields, followed through locals, helper parameters and helper results), never into a flushable wrapper whose Put only buffers it. Dirty-flag producer: every mutator of the flagged store (Put, Delete, batch Write) is overridden and delegates only after modified() returned nil; modified() writes the dirty mark before returning nil on the clean edge; Flush writes the clean mark and only then clears the in-memory flag; a database drop must be preceded by invalidating the other databases' clean state. Startup check: a dirty prefix, differing marks, or an unmarked database next to a known flush ID each lead only to error returns. The enumeration of crash points itself is not performed.",
 		[]string{"a single Put/Drop/batch Write of the underlying store is the unit of durability", "no I/O error injection (fault sequences are outside the property's quantifier)"},
 		runC25)
 }
@@ -65,7 +65,10 @@ func runC25(c *core.Ctx) {
 			c.Need(len(dels) >= 1, short(m.fn)+" delegates to "+m.delegate)
 			for _, d := range dels {
 				n++
-				ok := len(mods) == 1 && afterSuccess(f, mods[0], d.Pt)
+				ok := false
+				for _, m := range mods {
+					ok = ok || afterSuccess(f, m, d.Pt)
+				}
 				c.Check(ok, short(m.fn)+" marks dirty before writing", "T2+T4", d.Pos(), "the raw write is reached only after modified() returned nil", "the raw store is written without a successful modified(): data can change under a clean mark")
 			}
 		}
